@@ -1159,6 +1159,23 @@ def run(repo, check):
     check.run_rule(rule_r9, repo)
     if check.tier == 'thorough':
         check.run_rule(rule_r8, repo)
+    # R2 is an over-approximation ("a state method the walk calls and the compiler state does not override runs at compile time only"):
+    # a method that only moves compile-time bookkeeping (the bitmap-definition machine, whose effect the compiler records as 031031
+    # reset / increment statements) is harmless.  Its findings are reported unless both differentials - the abstract one over the
+    # whole template family (R6) and the concrete one (R9) - ran and found plain and compiled walks in agreement.
+    by_id = dict((r.rule, r) for r in check.results)
+    r2_, r6_, r9_ = by_id.get('C08.R2'), by_id.get('C08.R6'), by_id.get('C08.R9')
+    from sa.report import load_known
+    known_ids = set(k['ident'] for k in load_known().get('known', []) if k.get('property') == 'C08')
+    new6 = [f for f in (r6_.findings if r6_ is not None else []) if f.ident not in known_ids]
+    new9 = [f for f in (r9_.findings if r9_ is not None else []) if f.ident not in known_ids]
+    if r2_ is not None and r6_ is not None and r9_ is not None and not new6 and not new9:
+        sus = [f for f in r2_.findings if f.key.endswith(':missing')]
+        if sus:
+            r2_.findings = [f for f in r2_.findings if f not in sus]
+            for f in sus:
+                r2_.notes.append('not reported: %s is not overridden by the compiler state, but the plain and the compiled walk agree on the whole family (R6, R9)' % f.key)
+            r2_.instance('%d state method(s) without an override in the compiler state: plain and compiled walks agree on the whole family' % len(sus))
     from sa.rules import c14
     from sa.rules.common import share
     share(check, repo, c14.rule_r2, 'C08.R7', 'the flattened descriptor list that keys the compiled-template cache is the original list (shared with C14.R2)')
